@@ -52,7 +52,7 @@ def run(ctx):
         o, f_ = run_lines(enc, [lines[i] for i in idx]); fails += f_
         for i, x in zip(idx, o): outs[i] = x
     os.environ.pop('VERIF_SCHED_SEED', None)
-    for x in fails: viol.append(dict(why='threaded encoder: crash / assertion / watchdog (deadlock, e.g. in lzma_end), rc %s' % x[2], line=(x[0] or '')[:3000], stderr=x[1][-1500:]))
+    for x in fails: viol.append(dict(why='threaded encoder: crash / assertion / watchdog (deadlock, e.g. in lzma_end), rc %s' % x[2], line=(x[0] or ''), stderr=x[1][-1500:]))
     groups = {}; dlines, dmeta = [], []
     for (di, bs, pc, kind), l, o in zip(meta, lines, outs):
         if o is None: continue
@@ -96,7 +96,7 @@ def run(ctx):
     touts, tf = run_lines(ts, tl)
     os.environ.pop('TSAN_OPTIONS', None)
     n_eval += len(tl)
-    for x in tf: viol.append(dict(why='threaded encoder under ThreadSanitizer: %s' % ('data race' if x[2] == 66 else 'crash / watchdog, rc %s' % x[2]), line=(x[0] or '')[:3000], stderr=x[1][-2500:]))
+    for x in tf: viol.append(dict(why='threaded encoder under ThreadSanitizer: %s' % ('data race' if x[2] == 66 else 'crash / watchdog, rc %s' % x[2]), line=(x[0] or ''), stderr=x[1][-2500:]))
     # ---- AddressSanitizer build: re-initialisation with changed options (block size, preset) and early lzma_end
     sa = compile_driver('san', 'drv_enc.c', 'drv_enc')
     al = []
@@ -119,7 +119,7 @@ def run(ctx):
     os.environ['VERIF_SCHED_SEED'] = str(rng.randrange(1, 1 << 30))
     fouts, ff = run_lines(fl, flines)
     os.environ.pop('VERIF_SCHED_SEED', None)
-    for x in ff: viol.append(dict(why='threaded encoder flush history: crash / watchdog', line=(x[0] or '')[:3000], stderr=x[1][-1500:]))
+    for x in ff: viol.append(dict(why='threaded encoder flush history: crash / watchdog', line=(x[0] or ''), stderr=x[1][-1500:]))
     pl, pm = [], []
     for d, l, o in zip(fmeta, flines, fouts):
         if o is None: continue
